@@ -33,6 +33,7 @@ def items_of(t, i):
         "TieS": [("struct", f"#[typeshare]\npub struct Same {{ pub from{i}: u32 }}\n")],
         "TieE": [("enum", f"#[typeshare]\npub enum Same {{ V{i} }}\n")],
         "Ref": [("struct", f"#[typeshare]\npub struct R{i} {{ pub r: M1 }}\n")],
+        "Ren": [("struct", f'#[typeshare]\n#[serde(rename = "Aa{i}")]\npub struct Zz{i} {{ pub a: u32 }}\n')],
         "Bad": [],
     }[t]
 
@@ -68,7 +69,7 @@ def ws_files(c):
         return files
     use, ty = {"use_unknown": ("use zzz::Dup;\n", "Dup"), "use_facade": ("use facade::Dup;\n", "Dup"), "bare": ("", "Dup"),
                "glob_all": ("".join(f"use p{i}::*;\n" for i in range(1, n + 1)), "Dup"), "qualified_unknown": ("", "zzz::Dup"),
-               "use_first": ("use p1::Dup;\n", "Dup"),
+               "use_first": ("use p1::Dup;\n", "Dup"), "use_last": (f"use p{n}::Dup;\n", "Dup"), "qualified_last": ("", f"p{n}::Dup"),
                # the ambiguous name through a facade, next to an ORDINARY import from a provider that is not the alphabetically first
                "use_facade_plus": (f"use facade::Dup;\nuse p{n}::Only{n};\n", "Dup")}[c["form"]]
     if c["form"] in ("use_facade", "use_facade_plus"):
